@@ -72,31 +72,45 @@ def type_head(ty):
 class Adts:
     def __init__(self):
         self.tables = []     # list of dicts (crate adt json)
+        self.cache = {}
 
     def add(self, table):
         self.tables.append(table)
 
     def lookup(self, ty):
+        if ty in self.cache:
+            return self.cache[ty]
+        r = self._lookup(ty)
+        self.cache[ty] = r
+        return r
+
+    def _lookup(self, ty):
         head = type_head(ty)
-        last = head.split('::')[-1]
+        segs = head.split('::')
+        last = segs[-1]
         if last in BUILTIN_ENUMS and ('std::' in head or 'core::' in head or '::' not in head):
             return {'kind': 'enum', 'variants': [{'name': n, 'index': i, 'discr': None, 'fields': []} for i, n in enumerate(BUILTIN_ENUMS[last])], 'path': last}
         cands = []
         for t in self.tables:
-            if head in t and isinstance(t[head], dict):
-                return t[head]
             for k, v in t.items():
-                if isinstance(v, dict) and (v['path'] == head or v['path'].endswith('::' + head) or head.endswith('::' + v['path'].split('::', 1)[-1])):
-                    if v not in cands:
-                        cands.append(v)
+                if not isinstance(v, dict) or v['path'].split('::')[-1] != last:
+                    continue
+                if v in cands:
+                    continue
+                psegs = v['path'].split('::')
+                if v['path'] == head or _subseq(segs[:-1], psegs[:-1]) or _subseq(segs[1:-1], psegs[:-1]):
+                    cands.append(v)
         if len(cands) == 1:
             return cands[0]
-        if not cands:
-            for t in self.tables:
-                if last in t and isinstance(t[last], dict) and (last + '#ambiguous') not in t:
-                    cands.append(t[last])
-            if len(cands) == 1:
-                return cands[0]
+        if len(cands) > 1:
+            # prefer exact / longest-prefix agreement
+            exact = [v for v in cands if v['path'] == head or v['path'].endswith('::' + head)]
+            if len(exact) == 1:
+                return exact[0]
+            full = [v for v in cands if _subseq(segs[:-1], v['path'].split('::')[:-1])]
+            if len(full) == 1:
+                return full[0]
+            return None
         return None
 
     def variant_index(self, ty, name):
@@ -141,7 +155,7 @@ class State:
     def __init__(self):
         self.frames = []; self.pc = []; self.world = {}; self.log = []; self.lazy = {}
         self.kind = None; self.info = None; self.result = None; self.events = []; self.trace = []
-        self._memo = None; self.scratch = None
+        self._memo = None; self.scratch = None; self.roots = {}
 
     def clone(self):
         memo = {}
@@ -978,10 +992,13 @@ class Engine:
             raise MirError('terminator ' + k)
 
     # ---------------- convenience for obligations
-    def start(self, fname, args, world=None):
+    def start(self, fname, args, world=None, roots=None):
+        """roots: named handles on input objects; read them back from each finished path as p.roots[name] (paths are clones)"""
         st = State()
         if world:
             st.world.update(world)
+        st.roots.update(roots or {})
+        st.roots['args'] = args
         self.push(st, fname, args, None, None)
         return st
 
@@ -1030,6 +1047,12 @@ def _mk_driver():
 
 
 DRIVER_POLL = _mk_driver()
+
+
+def _subseq(a, b):
+    """is list a a subsequence of list b (re-exports skip private modules; trimmed paths drop leading segments)"""
+    it = iter(b)
+    return all(x in it for x in a)
 
 
 def suffix_match(name, pat):
